@@ -152,6 +152,25 @@ class ConstEval:
             rhs = self.eval(mod, stmt.value, env)
             env[stmt.target.id] = self._binop(type(stmt.op), cur, rhs)
             return
+        if isinstance(stmt, (ast.For, ast.While, ast.If, ast.Delete, ast.Pass)) or (isinstance(stmt, ast.Expr) and isinstance(stmt.value, ast.Call)):
+            # import-time code that fills tables: loops with item stores, TABLE.update({...}), del of the loop variables - run by the statement
+            # interpreter used for pure functions, with the module namespace as its scope (globals are the locals at module level)
+            import copy
+
+            snap = {k: (copy.copy(v) if isinstance(v, (dict, list, set)) else v) for k, v in env.items()}
+            try:
+                self._run_block(mod, [stmt], env, env, [200000])
+                return
+            except _Unfoldable:
+                # undo partial effects, then fall through to "unsupported"
+                for k, v in snap.items():
+                    if isinstance(v, dict) and isinstance(env.get(k), dict):
+                        env[k].clear()
+                        env[k].update(v)
+                    elif isinstance(v, list) and isinstance(env.get(k), list):
+                        env[k][:] = v
+                    else:
+                        env[k] = v
         # anything else at module level is outside the whitelist: names it may bind are unknown
         self.unsupported.append((mod, stmt.lineno, type(stmt).__name__))
         for n in ast.walk(stmt):
@@ -592,7 +611,10 @@ class ConstEval:
                 v = self.eval(mod, st.value, env, loc)
                 if isinstance(k, Unknown) or isinstance(v, Unknown):
                     raise _Unfoldable("item store")
-                loc[st.targets[0].value.id][k] = v
+                cont_ = loc[st.targets[0].value.id]
+                cont_[k] = v
+                if isinstance(cont_, PDict):
+                    cont_.prov[k] = (mod, st.lineno)
                 continue
             if isinstance(st, ast.AugAssign) and isinstance(st.target, ast.Name) and st.target.id in loc:
                 v = self._binop(type(st.op), loc[st.target.id], self.eval(mod, st.value, env, loc))
@@ -626,10 +648,19 @@ class ConstEval:
                 continue
             if isinstance(st, ast.Pass):
                 continue
-            if isinstance(st, ast.Expr) and isinstance(st.value, ast.Call) and isinstance(st.value.func, ast.Attribute) and isinstance(st.value.func.value, ast.Name) \
-                    and st.value.func.value.id in loc and st.value.func.attr in ("append", "extend", "insert", "update", "add", "setdefault") and not st.value.keywords:
-                # in-place growth of a container that is local to the function being folded
-                recv = loc[st.value.func.value.id]
+            if isinstance(st, ast.Delete) and all(isinstance(t, ast.Name) for t in st.targets):
+                for t in st.targets:
+                    loc.pop(t.id, None)
+                continue
+            def _base_name(x):
+                while isinstance(x, ast.Subscript):
+                    x = x.value
+                return x.id if isinstance(x, ast.Name) else None
+
+            if isinstance(st, ast.Expr) and isinstance(st.value, ast.Call) and isinstance(st.value.func, ast.Attribute) and _base_name(st.value.func.value) in loc \
+                    and st.value.func.attr in ("append", "extend", "insert", "update", "add", "setdefault") and not st.value.keywords:
+                # in-place growth of a container that is local to the function being folded (or an element of it: T[k].update(...))
+                recv = self.eval(mod, st.value.func.value, env, loc)
                 args = [self.eval(mod, a, env, loc) for a in st.value.args]
                 if any(isinstance(a, Unknown) for a in args) or not isinstance(recv, (list, dict, set)):
                     raise _Unfoldable("container update")
